@@ -5,7 +5,8 @@ R1 cartesian product: in every `combine` that calls `self._product`, each `_prod
    `_add_to_list` (P2) with the right operands (token / inner schema, port / inner combinator name, own
    depth / propagate flag), is evaluated for the arriving (port, token) and every schema it produces is
    yielded; `CartesianProductCombinator._product` keys on the tag minus `depth` components, is guarded by
-   `len(self._token_values[tag]) == len(self.items)`, builds the product with the arriving port replaced by
+   `len(self._token_values[tag]) == len(self.items)` (branch facts: the product lies in the region reached only through the
+   edge of a dominating test that implies the equality -- nested `if`, guard clause, `!=`, conjunction, flag local), builds the product with the arriving port replaced by
    the singleton `[token]` and every other port by its full list, yields once per combination and retags with
    <own prefix> + <last component of every member>; `_add_to_port` refuses a token whose tag is already
    present (loop with early exit or `any` / `all` over the port list; the port list is `tag_values[port]` or
@@ -16,14 +17,15 @@ R1 cartesian product: in every `combine` that calls `self._product`, each `_prod
    comprehensions, `utils.dict_product(**m)` entries and through the loops that fill a local container in place; in the
    cartesian product the order must be traceable to `self.items` (declaration order) or be fixed by the code.
 R2 dot product (`DotProductCombinator._product`): all pending tags are scanned, emission only when the port
-   map is complete (`==`), every port list loses exactly one element per emission (`pop`/`popleft`) and that
+   map is complete (`==`, same branch-fact recogniser: no yield reachable within the iteration from the other edge), every port list loses exactly one element per emission (`pop`/`popleft`) and that
    element is stored in the schema under its own port key, the number of emissions is the minimum list length,
    emitted tokens are retagged with `get_tag` of the combination.
 R3 propagation (`Combinator._add_to_list`): tag of a schema via `get_tag`, `depth` trailing components stripped,
    both directions of `_is_parent_tag` handled with the right operands under `propagate`, the equal tag is
    skipped, the scan over the stored tags cannot be left early (`break` / `return`: the entries registered later would
    be treated differently from those registered earlier), the token is finally inserted under its own tag on every path;
-   the base `_add_to_port` stores the token exactly once; `_is_parent_tag` compares component lists (`split('.')`), never raw strings.
+   the base `_add_to_port` stores the token exactly once; `_is_parent_tag` compares component lists (`split('.')`), never raw strings
+   (the returned comparison may sit in a result temporary: every definition of it must be the comparison).
 R4 step drivers (`CombinatorStep.run`, `LoopCombinatorStep.run`): every token that is not a (iteration)
    termination token reaches `self.combinator.combine(task_name, token)`; every yielded schema is persisted
    and put on each of its ports (same port name for `put` and `_persist_token`, provenance = all input ids);
@@ -46,6 +48,7 @@ from __future__ import annotations
 
 import ast
 
+from ..facts import atoms, region
 from ..model import ancestors, dotted, parent, unparse, walk_no_nested
 from ..selftest import V
 from ._util_B import (
@@ -109,12 +112,12 @@ def _tv_at(e, key=None) -> bool:
     return isinstance(e, ast.Subscript) and _tv(e.value) and (key is None or key(e.slice))
 
 
-def _len_items_guard(f, test, tag_pred) -> bool | None:
-    """True for `len(self._token_values[tag]) == len(self.items)` (either order); False for the same operands
-    with another operator; None when the test is something else."""
-    if not (isinstance(test, ast.Compare) and len(test.ops) == 1):
-        return None
-    a, b = test.left, test.comparators[0]
+def _len_items_cmp(f, e, tag_pred) -> bool:
+    """`e` compares `len(self._token_values[<tag>])` with `len(self.items)` (either order, any single operator; the port
+    map may be held in a local)."""
+    if not (isinstance(e, ast.Compare) and len(e.ops) == 1):
+        return False
+    a, b = e.left, e.comparators[0]
 
     def is_tv(x):
         return is_len_of(x, lambda y: any_origin(f, y, lambda o: _tv_at(o, tag_pred)))
@@ -122,9 +125,44 @@ def _len_items_guard(f, test, tag_pred) -> bool | None:
     def is_items(x):
         return is_len_of(x, lambda y: is_self_attr(y, "items"))
 
-    if (is_tv(a) and is_items(b)) or (is_items(a) and is_tv(b)):
-        return isinstance(test.ops[0], ast.Eq)
-    return None
+    return (is_tv(a) and is_items(b)) or (is_items(a) and is_tv(b))
+
+
+def _complete_edge(f, test, tag_pred):
+    """Which edge of `test` implies `len(self._token_values[tag]) == len(self.items)` -- decided on branch facts, not on
+    the spelling of the test (`if a == b: X`, `if not a == b: return`, `if a != b: continue`, `if c and a == b: X`,
+    a flag local `complete = a == b`):
+    't' / 'f'  the edge on which completeness holds;
+    False      the test involves the two lengths but neither edge implies their equality (`<=`, `a == b or c`, ...);
+    None       the test does not involve them."""
+
+    def resolve(a, depth=3):
+        # a flag computed before the test: `ok = len(..) == len(..)` / `if ok:` (single definition only)
+        while depth and isinstance(a, ast.Name):
+            os_ = orig(f, a)
+            if len(os_) != 1 or os_[0] is a:
+                break
+            a, depth = os_[0], depth - 1
+        return a
+
+    def implied(truth):
+        out = []
+        for a, v in atoms(test, truth):
+            r = resolve(a)
+            out.extend(atoms(r, v) if r is not a else [(a, v)])
+        return out
+
+    def related(a):
+        return any(_len_items_cmp(f, x, tag_pred) for x in ast.walk(a))
+
+    def complete(a, v):
+        return v and _len_items_cmp(f, a, tag_pred) and isinstance(a.ops[0], ast.Eq)
+
+    sides = {k: implied(t) for k, t in (("t", True), ("f", False))}
+    if not any(related(a) for fs in sides.values() for a, _ in fs):
+        return None
+    good = [k for k, fs in sides.items() if any(complete(a, v) for a, v in fs)]
+    return good[0] if len(good) == 1 else False
 
 
 def _empty_container(f, e) -> bool:
@@ -350,10 +388,12 @@ def r1(ctx):
     prods = [(n, c) for n in g.nodes.values() for c in node_calls(g, n) if _resolves(p, f, c, DICT_PRODUCT)]
     ctx.require(len(prods) == 1, "C02.R1: cartesian _product no longer calls utils.dict_product exactly once")
     pn, pc = prods[0]
-    guards = [n for n in g.nodes.values() if n.kind == "test" and _len_items_guard(f, n.ast, is_key) is not None]
-    ok = bool(guards) and all(_len_items_guard(f, t.ast, is_key) for t in guards) and any(
-        g.dominates(t.id, pn.id) and pn.id in g.reach(branch_succ(g, t.id, "t"), include_src=True)
-        and pn.id not in g.reach(branch_succ(g, t.id, "f"), avoid=[t.id], include_src=True) for t in guards)
+    # (branch facts: the product lies in the region reached only through the edge on which the lengths are equal --
+    # nested `if`, guard clause `if not ==: return`, `!=`, conjunctions alike)
+    edges = {n.id: _complete_edge(f, n.ast, is_key) for n in g.nodes.values() if n.kind == "test"}
+    guards = [g.nodes[i] for i, e in edges.items() if e is not None]
+    ok = bool(guards) and all(edges[t.id] for t in guards) and any(
+        g.dominates(t.id, pn.id) and pn.id in region(g, t.id, edges[t.id]) for t in guards)
     ctx.ob("R1", "cartesian _product: guarded by len(self._token_values[tag]) == len(self.items), tag = token tag minus depth", ok, func=f,
            node=(guards[0].ast if guards else f.node), instance="cartesian._product:guard",
            message="cartesian _product is not guarded by completeness of the port map for the token's key tag (`==`): partial or wrong-key products")
@@ -783,11 +823,15 @@ def r2(ctx):
     def is_tag(e):
         return is_name(e, tagv)
 
-    guards = [n for n in g.nodes.values() if n.kind == "test" and _len_items_guard(f, n.ast, is_tag) is not None]
+    edges = {n.id: _complete_edge(f, n.ast, is_tag) for n in g.nodes.values() if n.kind == "test"}
+    guards = [g.nodes[i] for i, e in edges.items() if e is not None]
     ys = [n for n in g.nodes.values() if any(isinstance(x, ast.Yield) for x in n.walk())]
     ctx.require(len(ys) >= 1, "C02.R2: dot _product does not yield")
-    ok = bool(guards) and all(_len_items_guard(f, t.ast, is_tag) for t in guards) and all(
-        any(g.dominates(t.id, y.id) and y.id not in g.reach(branch_succ(g, t.id, "f"), avoid=[t.id] + g.ids_of(outer[0]), include_src=True) for t in guards)
+    # within one iteration of the tag loop no yield is reachable from the edge on which the lengths may differ
+    # (`if ==: emit`, `if not ==: continue` + emit, `if != : continue` ... -- decided on the edge, not on the spelling)
+    ok = bool(guards) and all(edges[t.id] for t in guards) and all(
+        any(g.dominates(t.id, y.id) and y.id not in g.reach(branch_succ(g, t.id, "f" if edges[t.id] == "t" else "t"),
+                                                            avoid=[t.id] + g.ids_of(outer[0]), include_src=True) for t in guards)
         for y in ys)
     ctx.ob("R2", "dot _product emits only for tags whose port map is complete (==)", ok, func=f, node=(guards[0].ast if guards else f.node),
            instance="dot._product:guard", message="dot _product emits without `len(self._token_values[tag]) == len(self.items)`: incomplete combinations")
@@ -1086,16 +1130,23 @@ def r3(ctx):
     ok = not raw and len(rets) == 1 and rets[0].value is not None
     why = f"`{raw[0].id}` is used as a raw string" if raw else ""
     if ok:
-        e = rets[0].value
-        ok = False
-        why = f"`{unparse(e)}` is not `tag.split('.')[:len(parent.split('.'))] == parent.split('.')`"
-        if isinstance(e, ast.Compare) and len(e.ops) == 1 and isinstance(e.ops[0], ast.Eq):
+        is_parent_comps = lambda x: any_origin(f, x, lambda o: split_dot(o, lambda y: is_name(y, pr)))  # noqa: E731
+
+        def prefix_eq(e) -> bool:
+            if not (isinstance(e, ast.Compare) and len(e.ops) == 1 and isinstance(e.ops[0], ast.Eq)):
+                return False
             for a, b in ((e.left, e.comparators[0]), (e.comparators[0], e.left)):
-                is_parent_comps = lambda x: any_origin(f, x, lambda o: split_dot(o, lambda y: is_name(y, pr)))  # noqa: E731
                 if isinstance(a, ast.Subscript) and isinstance(a.slice, ast.Slice) and a.slice.lower is None and a.slice.step is None \
                         and a.slice.upper is not None and is_len_of(a.slice.upper, is_parent_comps) \
                         and any_origin(f, a.value, lambda o: split_dot(o, lambda y: is_name(y, tg))) and is_parent_comps(b):
-                    ok, why = True, ""
+                    return True
+            return False
+
+        # the returned value, possibly through a result temporary (`r = <cmp>; return r`): every definition must be the comparison
+        vals = orig(f, rets[0].value)
+        bad = next((o for o in vals if not prefix_eq(o)), None)
+        ok = bool(vals) and bad is None
+        why = "" if ok else f"`{unparse(bad if bad is not None else rets[0].value)}` is not `tag.split('.')[:len(parent.split('.'))] == parent.split('.')`"
     ctx.ob("R3", "_is_parent_tag compares lists of tag components", ok, func=f, node=f.node, instance="is_parent_tag:components",
            message=f"_is_parent_tag: {why}: string-prefix comparison makes `0.1` a parent of `0.10`")
 
@@ -1655,6 +1706,31 @@ VARIANTS = [
       "    tag_values.setdefault(port_name, deque())", "R3"),
     V("setdefault form: element tags still read from a possibly-schema element", SFILE, f"{COMB}._add_to_port", _BPORT_BODY,
       "    stored = tag_values.setdefault(port_name, deque())\n    if all((t.tag != token.tag for t in stored)):\n        stored.append(token)", "R5"),
+    # guard clauses / result temporaries (mechanical refactorings `guard`, `tempret`): the completeness guard is decided on branch facts
+    V("benign: cartesian completeness as a guard clause (negated test + return)", CFILE, _CPROD, "    if len(self._token_values[tag]) == len(self.items):",
+      "    if not len(self._token_values[tag]) == len(self.items):\n        return\n    if True:", None),
+    V("benign: cartesian completeness as a `!=` guard clause", CFILE, _CPROD, "    if len(self._token_values[tag]) == len(self.items):",
+      "    if len(self.items) != len(self._token_values[tag]):\n        return\n    if True:", None),
+    V("benign: cartesian completeness in a flag local", CFILE, _CPROD, "    if len(self._token_values[tag]) == len(self.items):",
+      "    complete = len(self._token_values[tag]) == len(self.items)\n    if not complete:\n        return\n    if True:", None),
+    V("benign: dot completeness as a guard clause (negated test + continue)", CFILE, _DPROD, "        if len(self._token_values[tag]) == len(self.items):",
+      "        if not len(self._token_values[tag]) == len(self.items):\n            continue\n        if True:", None),
+    V("benign: dot completeness conjoined with another condition", CFILE, _DPROD, "        if len(self._token_values[tag]) == len(self.items):",
+      "        if tag is not None and len(self._token_values[tag]) == len(self.items):", None),
+    V("cartesian: guard clause leaves on the complete side", CFILE, _CPROD, "    if len(self._token_values[tag]) == len(self.items):",
+      "    if len(self._token_values[tag]) == len(self.items):\n        return\n    if True:", "R1"),
+    V("cartesian: guard clause only refuses larger maps", CFILE, _CPROD, "    if len(self._token_values[tag]) == len(self.items):",
+      "    if not len(self._token_values[tag]) <= len(self.items):\n        return\n    if True:", "R1"),
+    V("cartesian: completeness or-ed with another condition", CFILE, _CPROD, "    if len(self._token_values[tag]) == len(self.items):",
+      "    if len(self._token_values[tag]) == len(self.items) or self.depth:", "R1"),
+    V("dot: guard clause skips the complete tags", CFILE, _DPROD, "        if len(self._token_values[tag]) == len(self.items):",
+      "        if not len(self._token_values[tag]) != len(self.items):\n            continue\n        if True:", "R2"),
+    V("dot: guard clause does not leave the iteration", CFILE, _DPROD, "        if len(self._token_values[tag]) == len(self.items):",
+      "        if not len(self._token_values[tag]) == len(self.items):\n            pass\n        if True:", "R2"),
+    V("benign: _is_parent_tag result in a temporary", SFILE, PARENT, "    return tag.split('.')[:len(parent_idx)] == parent_idx",
+      "    _sf_ret = tag.split('.')[:len(parent_idx)] == parent_idx\n    return _sf_ret", None),
+    V("_is_parent_tag: result temporary holds a string-prefix test", SFILE, PARENT, "    return tag.split('.')[:len(parent_idx)] == parent_idx",
+      "    res = tag.split('.')[:len(parent_idx)] == parent_idx\n    if len(parent_idx) == 1:\n        res = tag.split('.')[0] >= parent_idx[0]\n    return res", "R3"),
     V("benign: guard operands swapped", CFILE, _CPROD, "if len(self._token_values[tag]) == len(self.items):", "if len(self.items) == len(self._token_values[tag]):", None),
     V("benign: logging in combine", CFILE, _CCOMB, "self._add_to_list(token, port_name, self.depth)", "logger.debug(f'combine {port_name}')\n        self._add_to_list(token, port_name, self.depth)", None),
     V("benign: keyword arguments", CFILE, _CCOMB, "self._add_to_list(token, port_name, self.depth)", "self._add_to_list(token=token, port_name=port_name, depth=self.depth)", None),
